@@ -165,7 +165,7 @@ CHECKS = {
     "C07": {
         "text": ("Lean theorems (unbounded): in every reachable state of the receiver LTS requests are needed ids, announced before requested, at most once; "
                  "terminators only for requested ids; FIN only after the end marker and all terminators (receiver_protocol); stored bytes = concatenation of the "
-                 "payloads received, any chunking/interleaving (stored_is_concat); a terminator is accepted at most once per id (terminator_once_per_id); nothing after FIN in an accepted log is a request or a second FIN (fin_is_the_last_send); at FIN the requested ids are exactly the needed ones (requests_are_exactly_the_needed_ids). The LTS is the acceptor of real Receive event logs against an independent "
+                 "payloads received, any chunking/interleaving (stored_is_concat); a terminator is accepted at most once per id (terminator_once_per_id); nothing after FIN in an accepted log is a request or a second FIN (fin_is_the_last_send); at FIN the requested ids are exactly the needed ones (requests_are_exactly_the_needed_ids); nothing is stored for an id that was not requested (stored_only_for_requested). The LTS is the acceptor of real Receive event logs against an independent "
                  "reference sender; needed ids come from the Lean change computation; the destination (also at the moment FIN is seen) is compared with what was sent."),
         "note": ("Trusted: Lean kernel + standard axioms; bytes compared by content hash in the harness; schedules = those produced by seeded capacities, "
                  "chunkings and interleavings."),
